@@ -11,6 +11,8 @@ FORMULAS = [
     "y ~ x", "y ~ x + z", "y ~ center(x) + scale(z)", "y ~ bs(x, df=4)", "y ~ poly(x, 2)", "y ~ f", "y ~ 0 + f + g", "y ~ f:g",
     "y ~ f*x", "y ~ c1 + x", "y ~ o:x", "y ~ C(k)", "y ~ S(f) + T(g, 'v')", "y ~ upper(g)", "y ~ np.where(z > 5, 'hi', 'lo') + x",
     "y ~ I(f) + x", "y ~ x + (1|g)", "y ~ x + (x|g)", "y ~ (0 + f|g) + (1|h)", "y ~ (x|upper(g))", "y ~ (scale(x)|g:h)",
+    "y ~ {binary(f, 'a') * x} + z", "y ~ I(scale(x) * z) + h", "y ~ binary(g, success='v') + x", "y ~ poly(x, degree=2, raw=True)",
+    "y ~ T(f, ref='b') + bs(z, 4, degree=2)", "y ~ I(center(x) + binary(h, 'p')) + (1|g)",
     "f ~ x", "s['yes'] ~ x + f", "prop(succ, trials) ~ x", "y ~ times(x, by=z)", "y ~ offset(z) + x",
 ]
 
@@ -70,9 +72,19 @@ def compare(base, other, perm=None):
     return None
 
 
-def variants(d, rng):
+def variants(d, rng, formula=""):
+    import re
     n = len(d)
     out = []
+    # unused columns that happen to be named like the keyword arguments of the formula's calls, with missing values
+    kws = [k for k in dict.fromkeys(re.findall(r"(\w+)\s*=(?!=)", formula)) if k not in d.columns]
+    if kws:
+        e = d.copy()
+        for k in kws:
+            col = rng.normal(size=n)
+            col[rng.choice(n, size=3, replace=False)] = np.nan
+            e[k] = col
+        out.append((f"unused columns named like keyword arguments {kws}, with NaN", e, None))
     for _ in range(3):
         p = rng.permutation(n)
         out.append(("row permutation", d.iloc[p].reset_index(drop=True), p))
@@ -114,7 +126,7 @@ def _chunk(task):
         except Exception as ex:
             res.append((f, "baseline", f"raise {type(ex).__name__}: {ex}"))
             continue
-        for name, e, perm in variants(d, rng):
+        for name, e, perm in variants(d, rng, f):
             try:
                 if isinstance(e, tuple):
                     ref = observe(design_matrices(f, e[0]))
@@ -131,7 +143,9 @@ def _chunk(task):
 def PROOFS():
     from ..contracts import design_c, variable_c  # noqa: F401
     return [("vf.contracts.design_c", design_c.FUNCTIONS),
-            ("vf.contracts.variable_c", ["formulae.terms.variable.Variable.eval_categoric", "formulae.terms.call.Call.eval_categoric"])]
+            ("vf.contracts.variable_c", ["formulae.terms.variable.Variable.eval_categoric", "formulae.terms.call.Call.eval_categoric"]),
+            # stateless transforms return positional arrays computed row by row (no index labels to align on)
+            ("vf.contracts.transforms_c", ["formulae.transforms.binary"])]
 
 
 def run(report, findings):
